@@ -249,6 +249,13 @@ def generate(contract, ov):
     from .pyvc import values as _values
     _values.reset_defs()
     cx, I = make_context(contract, ov)
+    import ast as _ast
+    cx.loop_ids = {}
+    for n in _ast.walk(fn):          # breadth-first; re-number in source order
+        pass
+    loops_in_order = sorted([n for n in _ast.walk(fn) if isinstance(n, (_ast.For, _ast.While))], key=lambda n: (n.lineno, n.col_offset))
+    for i, n in enumerate(loops_in_order):
+        cx.loop_ids[id(n)] = i
     st, args, kwargs, info = contract.setup(cx, I, ov)
     st = st.gset("__class__", contract.owner_class)
     outcomes = I.bind_params(fn, args, kwargs, st, lambda env, st2: I.block(fn.body, st2.with_env(env)))
